@@ -723,3 +723,182 @@ PROPS['C14'] = dict(streams=[CMP_STREAM], side_obligations=c14_side,
                     facts_view=lambda f: dict(impls=(f.get('cmp') or {}).get('rows')),
                     assumptions=['what #[derive(PartialEq, PartialOrd, Ord, Hash, Debug)] and the slice/tuple impls of core expand to is modelled in Cmp.v / CmpCases.v (field-wise, lexicographic, length-prefixed hashing) and validated by the cmp stream',
                                  'ArcUnion Debug prints the value under the variant name (First(..)/Second(..)); the property is read as requiring the value part to be the payload\'s Debug'])
+
+
+# ============================================================================
+# ctor stream (C06, C07): constructors fed by scripted iterators / vectors / boxes / slices / strings
+# ============================================================================
+CT_SEP = 99999999
+def ctor_case(ctor, n, panic_at=0, extra=0, lens=(), hints=()):
+    op = [ctor, n, panic_at, extra, len(lens)] + list(lens) + [len(hints)]
+    for lo, hi in hints: op += [lo, 0 if hi is None else hi + 1]
+    return op
+
+def gen_ctor(tier, rng):
+    cases = []; k = 0
+    def add(op):
+        nonlocal k
+        cases.append(('T%d' % k, [op])); k += 1
+    def lens_opts(n):
+        o = [[], [n + 1], [n + 2], [max(n - 1, 0)], [max(n - 2, 0)], [n, n + 1], [n + 1, n], [n, max(n - 1, 0)], [max(n - 1, 0), n], [0], [n, n, n + 3]]
+        seen = []; [seen.append(x) for x in o if x not in seen]; return seen
+    def hint_opts(n):
+        o = [[], [(n, n)], [(0, None)], [(1, 9)], [(n, n), (n + 1, n + 1)], [(n, n), (n, n), (max(n - 1, 0), max(n - 1, 0))], [(n + 1, n + 1)], [(max(n - 1, 0), max(n - 1, 0))],
+             [(n, n + 1)], [(n, n), (0, None)], [(n + 2, n + 2), (n, n)], [(n, n), (n + 2, n + 2), (n + 2, n + 2)]]
+        seen = []; [seen.append(x) for x in o if x not in seen]; return seen
+    small = range(0, 5) if tier != 'thorough' else range(0, 8)
+    # systematic: fat / thin from_header_and_iter under every script for len(), panics at every position
+    for n in small:
+        for ctor in (0, 1):
+            for ls in lens_opts(n):
+                for pa in range(0, n + 3):
+                    add(ctor_case(ctor, n, pa, 0, ls))
+        for ctor in (2, 3):
+            for hs in hint_opts(n):
+                for pa in range(0, n + 3):
+                    add(ctor_case(ctor, n, pa, 0, [], hs))
+    # honest, every length up to 64 (the model's and the harness's bound on one case; the theorems have none)
+    for n in range(0, 65):
+        for ctor in (0, 1, 2, 3):
+            add(ctor_case(ctor, n)); add(ctor_case(ctor, n, 0, 0, [], [(0, None)]))
+        for extra in (0, 1, 3, 17):
+            add(ctor_case(4, n, 0, extra)); add(ctor_case(5, n, 0, extra))
+        for ctor in (11, 12, 13, 14, 15): add(ctor_case(ctor, n))
+    for n in (0, 1, 5):
+        for ctor in (6, 7, 8, 9): add(ctor_case(ctor, n))
+    # random scripts
+    R = 1500 if tier != 'thorough' else 30000
+    for i in range(R):
+        n = rng.choice([0, 1, 2, 3, 5, 8, 13, 21, 40, 64]) if rng.random() < 0.6 else rng.randrange(0, 65)
+        ctor = rng.choice([0, 0, 1, 1, 2, 2, 3, 3, 4, 5])
+        def near(): return max(0, min(64, n + rng.choice([0, 0, 0, 1, -1, 2, -2, 5, -n])))
+        lens = [near() for _ in range(rng.choice([0, 1, 1, 2, 3]))] if ctor in (0, 1) else []
+        hints = []
+        if ctor in (2, 3):
+            for _ in range(rng.choice([0, 1, 1, 2, 3, 4])):
+                lo = near(); hi = rng.choice([lo, lo, lo, None, near()])
+                hints.append((lo, hi))
+        pa = 0 if rng.random() < 0.6 else rng.randrange(1, n + 3)
+        add(ctor_case(ctor, n, pa, rng.choice([0, 0, 2, 9]) if ctor in (4, 5) else 0, lens, hints))
+    # malformed
+    for op in ([0, 3], [0, 70, 0, 0, 0, 0], [0, 3, 0, 0, 2, 1, 0], [10, 3, 0, 0, 0, 0], [2, 3, 0, 0, 0, 1, 2], [77, 1, 0, 0, 0, 0]): add(op)
+    return cases
+
+BAD_CT = {777777: 'destructor ran on a value that is not live (double drop or garbage)', 888888: 'read of a value that is not live (uninitialised or freed)',
+          666666: 'release of a block that is not a live allocation / with the wrong layout'}
+def ct_split(o):
+    parts = [[]]
+    for x in o:
+        if x == CT_SEP: parts.append([])
+        else: parts[-1].append(x)
+    return parts
+
+def oracle_ctor(ops, io, ctx):
+    """C06/C07 on what the implementation itself did: contents = items in order, every token destroyed at most once
+    (exactly once when a handle came back and was released), no stray allocation, no access to a dead value."""
+    op = ops[0]; o = io[0]
+    if len(op) < 6 or not o or o[0] > 1: return None
+    ctor, n = op[0], op[1]
+    parts = ct_split(o)
+    for p in parts[1:]:
+        for x in p:
+            if x in BAD_CT: return 'ctor %d, %d items: %s' % (ctor, n, BAD_CT[x])
+    if o[0] == 1:
+        d = parts[1] if len(parts) > 1 else []
+        if len(set(d)) != len(d): return 'ctor %d: a value was destroyed twice while the constructor unwound: %s' % (ctor, d)
+        return None
+    if len(parts) != 4: return 'malformed observation'
+    head, dropped, left, final = parts
+    if ctor in (0, 1, 2, 3, 4, 5):
+        hdr, rl, nc, cells = head[1], head[2], head[3], head[4:]
+        if nc != n or cells != list(range(1, n + 1)): return 'ctor %d: the handle holds %s, the input was the %d items 1..%d in order' % (ctor, cells, n, n)
+        if ctor in (0, 1, 4) and hdr != 0: return 'ctor %d: the handle holds header %d, not the header passed in' % (ctor, hdr)
+        if ctor == 1 and rl != n: return 'ThinArc::from_header_and_iter: recorded length %d for %d items' % (rl, n)
+        alld = dropped + final
+        if len(set(alld)) != len(alld): return 'ctor %d: a value was destroyed twice: during construction %s, at release %s' % (ctor, dropped, final)
+        if sorted(alld) != list(range(0, n + 1)): return 'ctor %d: after releasing the handle the destroyed values are %s; every input value must be destroyed exactly once' % (ctor, sorted(alld))
+        if set(dropped) & set(cells): return 'ctor %d: values %s were destroyed during construction although the handle holds them (moved and dropped)' % (ctor, sorted(set(dropped) & set(cells)))
+    if left and left[0] != 0: return 'ctor %d: %d allocations besides the result are still live after construction' % (ctor, left[0] if left[0] < 2 ** 63 else left[0] - 2 ** 64)
+    return None
+
+def dist_ctor(cases):
+    d = dict(ctor={}, lying_len=0, inexact_hint=0, panicking=0, spare_capacity=0, max_items=0)
+    for cid, ops in cases:
+        op = ops[0]
+        d['ctor'][str(op[0])] = d['ctor'].get(str(op[0]), 0) + 1
+        if len(op) >= 6:
+            n = op[1]; d['max_items'] = max(d['max_items'], n)
+            if op[2]: d['panicking'] += 1
+            if op[3]: d['spare_capacity'] += 1
+            nl = op[4]
+            if nl and any(x != n for x in op[5:5 + nl]): d['lying_len'] += 1
+            if len(op) > 5 + nl and op[5 + nl]: d['inexact_hint'] += 1
+    return d
+
+CTOR_STREAM = dict(stream='ctor', gen=gen_ctor, oracle=oracle_ctor, prep=mech_prep, distribution=dist_ctor,
+                   nontrivial=lambda ops, io: len(ops[0]) >= 6 and (ops[0][1] >= 2 or ops[0][2] > 0),
+                   rule='systematic: Arc/ThinArc::from_header_and_iter for 0..4 (thorough 0..7) items x 11 scripts of len() answers (honest, over/under by 1 and 2, changing between the two calls of the thin form) x a panic at every next() position; collect() into Arc<[T]>/UniqueArc<[T]> x 12 size_hint scripts (exact, inexact, unbounded, changing between the three calls, lying) x every panic position; every honest length 0..64 through iter/exact and inexact collect/Vec with spare capacity {0,1,3,17}/slice/str/String; Box, T, UniqueArc::new; 1500 (thorough 30000) random scripts; items are drop-counting identity tokens under the tracking allocator; observation: status, header, recorded length, cells, tokens destroyed during construction, allocations left besides the result, tokens destroyed at release; non-trivial = at least 2 items or a panic; distinct = distinct cases',
+                   cfgs=dict(quick=[('cfg_default', 'debug'), ('cfg_default', 'release')], thorough=[('cfg_default', 'debug'), ('cfg_default', 'release'), ('cfg_nostd', 'release'), ('cfg_all', 'debug')]))
+
+ALLOCFAIL_CTORS = {0: 'Arc::new', 1: 'Arc::from_header_and_iter', 2: 'ThinArc::from_header_and_iter', 3: 'collect::<Arc<[T]>> (exact)', 4: 'collect::<Arc<[T]>> (inexact)',
+                   5: 'Arc::from_header_and_vec', 6: 'Arc::from(Box<T>)', 7: 'UniqueArc::new_uninit', 8: 'UniqueArc::new_uninit_slice', 9: 'UniqueArc::from_header_and_uninit_slice',
+                   10: 'Arc::<[T]>::from(&[T])', 11: 'Arc::from_header_and_str', 12: 'Arc::make_mut (shared)', 13: 'Arc::new_uninit'}
+def custom_allocfail(tier, rng, facts):
+    """C07, allocation failure: the k-th allocation made by a constructor returns null; the process must abort through
+    handle_alloc_error (SIGABRT) right there, never continue with a null block."""
+    cov = dict(children=0, aborted=0, completed=0, configs=[]); problems = []; nontrivial = set(); samples = []
+    cfgs = [('cfg_default', 'debug')] if tier != 'thorough' else [('cfg_default', 'debug'), ('cfg_default', 'release'), ('cfg_nostd', 'release')]
+    for cfg, profile in cfgs:
+        with vlib.Lock():
+            rc, out, exe = vlib.build_harness(cfg, profile)
+        if rc != 0:
+            problems.append(('build', 'harness does not build (%s/%s): %s' % (cfg, profile, out[-800:]), dict(kind='unproved', stage='harness-build', output=out[-3000:]))); continue
+        cov['configs'].append('%s/%s' % (cfg, profile))
+        jobs = [(c, k) for c in sorted(ALLOCFAIL_CTORS) for k in (1, 2, 3)]
+        procs = []; results = []; i = 0
+        while i < len(jobs) or procs:
+            while i < len(jobs) and len(procs) < vlib.NPROC:
+                c, k = jobs[i]
+                procs.append((jobs[i], subprocess.Popen([exe, 'allocfail', str(c), str(k)], stdout=subprocess.PIPE, stderr=subprocess.PIPE, env=vlib.ENV))); i += 1
+            (c, k), p = procs.pop(0)
+            try:
+                so, se = p.communicate(timeout=60)
+            except subprocess.TimeoutExpired:
+                p.kill(); so, se = b'TIMEOUT', b''
+            results.append((c, k, p.returncode, so.decode('utf-8', 'replace').split(), se.decode('utf-8', 'replace')))
+        firsts = {}
+        for c, k, rc2, words, err in results:
+            cov['children'] += 1
+            case = dict(stream='allocfail', cfg=cfg, profile=profile, ctor=ALLOCFAIL_CTORS[c], failing_allocation=k)
+            if len(samples) < 3: samples.append(dict(case, exit=rc2, output=words, stderr=err[:200]))
+            if rc2 == -6 and words == ['MARK'] and 'memory allocation of' in err:
+                cov['aborted'] += 1; nontrivial.add('%d:%d' % (c, k)); firsts.setdefault(c, k)
+            elif rc2 == 0 and words == ['MARK', 'DONE']:
+                cov['completed'] += 1
+            else:
+                why = '%s with its allocation #%d failing did not abort through handle_alloc_error: exit=%s stdout=%s stderr=%s' % (ALLOCFAIL_CTORS[c], k, rc2, words, err[:300])
+                problems.append(('oracle', why, dict(case, kind='impl-counterexample', exit=rc2, output=words, stderr=err[:600], why=why)))
+        for c in sorted(ALLOCFAIL_CTORS):
+            if c not in firsts and not any(p[2].get('ctor') == ALLOCFAIL_CTORS[c] for p in problems):
+                why = '%s never hit a failing allocation (k = 1..3): the harness exercises nothing' % ALLOCFAIL_CTORS[c]
+                problems.append(('oracle', why, dict(kind='unproved', stage='allocfail-coverage', why=why)))
+    return dict(coverage=cov, evaluations=cov['children'], nontrivial=nontrivial, problems=problems[:8], samples=samples)
+
+ALLOCFAIL_STREAM = dict(stream='allocfail', custom=custom_allocfail,
+                        rule='one child process per (constructor, k): 14 allocating entry points x the k-th allocation (k = 1, 2, 3) made inside the call returns null; expected: SIGABRT after the marker with the handle_alloc_error message, or normal completion when the call makes fewer than k allocations; non-trivial = the failure was actually injected; distinct = (constructor, k)')
+
+def ctor_side(facts):
+    L = facts.get('layout') or {}
+    PT = facts.get('pointers') or {}
+    return [('constructor_bodies_are_the_modelled_ones', bool((PT.get('forms') or {}).get('ctor')),
+             'functions differing from the bodies Ctor.v was written against: %s' % [d for d in PT.get('diffs', [])]),
+            ('allocation_result_checked_for_null', bool(L.get('tafl_null_checked')) and bool(L.get('new_uninit_null_checked')),
+             'allocate_for_layout: %s, new_uninit: %s' % (L.get('tafl_null_checked'), L.get('new_uninit_null_checked')))]
+
+CTOR_ASSUME = ['an iterator is modelled by its script: the answers of successive len()/size_hint() calls, the items next() yields and the call at which it panics; whatever else user code does inside those calls is outside the model',
+               'Vec/Box/slice sources: ptr::copy_nonoverlapping + set_len(0) / Box<ManuallyDrop<T>> are modelled as a move of every element (validated by the ctor stream with drop-counting tokens)',
+               'allocation failure is observed on child processes of the real code (tie 2 only); the model has the facts that the result of alloc is null-checked before any write']
+PROPS['C06'] = dict(streams=[CTOR_STREAM, LAYOUT_STREAM], side_obligations=ctor_side,
+                    facts_view=lambda f: dict(ctor_forms=((f.get('pointers') or {}).get('forms') or {}).get('ctor')), assumptions=CTOR_ASSUME)
+PROPS['C07'] = dict(streams=[CTOR_STREAM, mech_stream([{'with'}, {'thin', 'with'}, {'unique'}, None], count_oracle=False), ALLOCFAIL_STREAM], side_obligations=ctor_side,
+                    facts_view=lambda f: dict(ctor_forms=((f.get('pointers') or {}).get('forms') or {}).get('ctor')), assumptions=CTOR_ASSUME + MECH_ASSUME)
